@@ -122,6 +122,11 @@ const OpInfo op_info[OP_NOPS] = {
     {"sequence of module creations, uses and deletions", 0, "", LC, -1, OP_NONE, false},
 };
 
+int& op_leak_errors() {
+  static thread_local int e = 0;
+  return e;
+}
+
 int& op_selfcheck_errors() {
   static thread_local int e = 0;
   return e;
@@ -400,8 +405,11 @@ void op_invoke(const Program& P, const Call& c, const std::vector<void*>& mods, 
       // module instances are independent objects: deleting one must not affect another of the same dimension
       const uint64_t n = c.p[0];
       const MODULE_TYPE t = c.p[1] ? NTT120 : FFT64;
+      uint64_t s0 = sim_lib_alloc_mark();
       MODULE* m1 = new_module_info(n, t);
+      uint64_t s1 = sim_lib_alloc_mark();
       MODULE* m2 = new_module_info(n, t);
+      uint64_t s2 = sim_lib_alloc_mark();
       MODULE* victim = c.p[2] ? m2 : m1;
       MODULE* surv = c.p[2] ? m1 : m2;
       delete_module_info(victim);
@@ -428,6 +436,9 @@ void op_invoke(const Program& P, const Call& c, const std::vector<void*>& mods, 
       free(b);
       free(tmp2);
       delete_module_info(surv);
+      // conservation is bracketed per new/delete pair only (memory a function allocates lazily while being *used* is not
+      // the pair's): with both modules gone nothing allocated inside either new_module_info may be live
+      if (sim_current_task() < 0) op_leak_errors() = sim_lib_live_in_range(s0, s1) + sim_lib_live_in_range(s1, s2);
       break;
     }
     case OP_LIFE_MODULE_SEQ: {
@@ -446,17 +457,21 @@ void op_invoke(const Program& P, const Call& c, const std::vector<void*>& mods, 
       for (int i = 0; i < 3; ++i) dims[i] = 1ull << (1 + (rnd() >> 33) % (c.p[3] ? c.p[3] : 6));
       static const int64_t ps[] = {3, 5, -1, 7, -3, 1};
       MODULE* h[4] = {0, 0, 0, 0};
-      uint64_t hn[4] = {0, 0, 0, 0};
-      int bad = 0;
+      uint64_t hn[4] = {0, 0, 0, 0}, lo[4] = {0, 0, 0, 0}, hi[4] = {0, 0, 0, 0};
+      int bad = 0, leaks = 0;
+      std::vector<std::pair<uint64_t, uint64_t>> closed;  // allocation windows of modules already deleted
       for (uint64_t step = 0; step < c.p[1]; ++step) {
         int k = (int)((rnd() >> 40) & 3);
         uint64_t what = (rnd() >> 35) % 3;
         if (!h[k]) {
           hn[k] = dims[(rnd() >> 37) % 3];
+          lo[k] = sim_lib_alloc_mark();
           h[k] = new_module_info(hn[k], t);
+          hi[k] = sim_lib_alloc_mark();
         } else if (what == 0) {
           delete_module_info(h[k]);
           h[k] = 0;
+          closed.push_back({lo[k], hi[k]});
         } else {
           const uint64_t n = hn[k];
           int64_t* a = (int64_t*)malloc(n * 8);
@@ -491,7 +506,13 @@ void op_invoke(const Program& P, const Call& c, const std::vector<void*>& mods, 
         }
       }
       for (int k = 0; k < 4; ++k)
-        if (h[k]) delete_module_info(h[k]);
+        if (h[k]) {
+          delete_module_info(h[k]);
+          closed.push_back({lo[k], hi[k]});
+        }
+      // all modules are gone: nothing allocated inside any new_module_info may be live (shared tables included)
+      for (auto& w : closed) leaks += sim_lib_live_in_range(w.first, w.second);
+      if (sim_current_task() < 0) op_leak_errors() = leaks;
       op_selfcheck_errors() = bad;
       break;
     }
